@@ -246,6 +246,29 @@ CLAIMS: dict[str, tuple[str, str, str, str]] = {
         "Lean 4 proof (locality of renderer options on the piece model) + differential rendering + option-read audit",
         "§6 C18",
     ),
+    "C06": (
+        "PARTIAL: proved are lemma A quote_strip (on a tab-free line '> ' ++ body the block-quote rule leaves exactly the "
+        "indent and consumed prefix that body has as a line of its own, at any nesting depth and inherited offset; built on "
+        "C17.marker_tab and quoteOffsets_prefix) and lemma D nested_loop_frame (the nested loop restores the frame). "
+        "MISSING: the laws themselves (same tokens, levels +1/+2, maps, references) need all block-rule models plus "
+        "level-equivariance and bsCount-irrelevance: decided by the oracle, which applies both laws to the implementation "
+        "on generated documents, repeatedly to depth 6, all marker shapes. Known finding K-C06-1 (HTML blocks with a blank "
+        "line are cut inside list items). Tie: per-line records of the live block-quote rule vs quoteOffsets.",
+        NOTE,
+        "Lean 4 proof (marker-stripping lemma) + refinement trace + container-law oracle",
+        "§6 C06",
+    ),
+    "C07": (
+        "PARTIAL (engine level FULL): frame — under the rule contracts the block loop, whatever happens inside its blocks "
+        "and containers, returns with the line tables, lineMax, blkIndent and level of its entry state (no indentation "
+        "bookkeeping leaks into the next block); stages — blocks are emitted with increasing, disjoint line ranges. "
+        "MISSING: the concatenation law itself (prefix/suffix independence; parentType and tight never read stale) is "
+        "decided by the oracle on pairs (A, B) incl. targeted B-blocks whose parse depends on what precedes them. Tie: "
+        "contract monitor on every real rule call + replay of real block loops on the Lean loop.",
+        NOTE + "Rule contracts assumed by the engine theorems and checked at run time.",
+        "Lean 4 proof (frame invariant of the dispatch loop under rule contracts) + contract monitoring + concatenation oracle",
+        "§6 C07",
+    ),
 }
 
 PENDING_REASON = "check under construction in this session (Lean model + theorems not yet committed); not claimed until its check exists"
